@@ -9,7 +9,9 @@ Output: `err <kind>` or
 No logic here: parsing + calls of `readNL`, `delivered`, `solObjnoLine`, `objRowIdx`.
 
   `F <name> <int>*` evaluates the definition `<name>` of the *generated* module `MpVerif.Gen.ObjFilter`
-  (arguments in the order of the generated signature) and prints `ret n` / `throw` / `ub`. -/
+  (arguments in the order of the generated signature) and prints `ret n` / `throw` / `ub`.
+
+  `T <cnt> {<var> <coef>}*` prints `sortTerms` (model of `LinTerms::sort_terms`) of the term list as `v:c,v:c,..`. -/
 open MpVerif.C12
 
 def parseOps : Nat → List String → Option (List OptOp × List String)
@@ -71,6 +73,11 @@ def runGen (name : String) (args : List String) : Option String := do
 def runLine (toks : List String) : Option String := do
   match toks with
   | "F" :: name :: args => runGen name args
+  | "T" :: cnt :: rest => do
+    let c ← cnt.toNat?
+    let (ts, r) ← parseTerms c rest
+    if !r.isEmpty then none
+    pure (",".intercalate ((sortTerms ts).map fun (v, c) => toString v ++ ":" ++ toString c))
   | "R" :: n :: nc :: nops :: rest =>
     let n ← n.toNat?
     let nc ← nc.toNat?
